@@ -53,6 +53,7 @@ def gen_frame(tier, seed):
     lo = lons(tier, seed)
     for la in lats(tier, seed):
         yield {'lat': la, 'lons': lo, 'kind': 'float'}
+    yield {'lat': -24, 'lons': [134, -1, 0], 'kind': 'float'}            # ints
     for kind in cfg.INTYPES[1:] + cfg.NUMFORMS:
         yield {'lat': -23.67, 'lons': [133.88, -0.3, 0.15], 'kind': kind}
         yield {'lat': -0.4, 'lons': [-0.3], 'kind': kind}
@@ -172,6 +173,15 @@ def ev_vcv(case, rec):
                 rec.outcome('vcv-bad')
             else:
                 rec.outcome('vcv-ok')
+    # an integer-typed covariance array is a legal numpy input
+    Mi = np.array([[4, 1, 0], [1, 3, -1], [0, -1, 9]])
+    for name, f in (('cart2local', vcv_cart2local), ('local2cart', vcv_local2cart)):
+        st, out = rec.call(f, Mi, la, lo)
+        Rm = rotation_matrix(la, lo)
+        exp = Rm.T @ Mi @ Rm if name == 'cart2local' else Rm @ Mi @ Rm.T
+        if st != 'ok' or float(np.max(np.abs(out - exp))) > 1e-13:
+            rec.fail('%s mishandles an integer-typed covariance array' % name, site='statistics:vcv_' + name + ':input-form', observed=out,
+                     expected=exp.tolist(), case=dict(case, mats=[], cols=[]))
     for c in case['cols']:
         C = np.array(c, dtype=float)
         one = dict(case, mats=[], cols=[c])
